@@ -6,6 +6,7 @@
               (the fields of `c01.dispatch` after the opcode)
     → the reply of `c01.dispatch` for the LAST call, evaluated by `History.runHistory` after the
       earlier calls in one interpreter, under the memo configuration regenerated from the source;
+      followed by `rs=<n0>,<n1>` (entries of the unit-rule table before / after the last call);
       `unmodelled` when the regenerated state has no place in the model
   c01.dump.state → ok <memo rows name:block:fields:maxsize;…> <unmodelled names> <sound 0|1>
 -/
@@ -60,10 +61,14 @@ def stepC01History (st : DriverState) (fields : List String) : Option String :=
       match Cfg.ofRows Generated.dispatcherMemos with
       | none => some "unmodelled"
       | some cfg =>
-        let r := runHistory cfg fvalKeyEq C (revHist.reverse.map (·.1)) c
-        if wrap == "eq" then some (runStr (eqNeOperator false r))
-        else if wrap == "ne" then some (runStr (eqNeOperator true r))
-        else if wrap == "-" then some (runStr r) else none
+        let st0 := stateAfter cfg fvalKeyEq C {} (revHist.reverse.map (·.1))
+        let r1 := dispatchM cfg fvalKeyEq C st0 c
+        let r := r1.2
+        -- sizes of the unit-rule table before and after the last call (compared with `cache_info()`)
+        let tail := s!"\trs={st0.rule.length},{r1.1.rule.length}"
+        if wrap == "eq" then some (runStr (eqNeOperator false r) ++ tail)
+        else if wrap == "ne" then some (runStr (eqNeOperator true r) ++ tail)
+        else if wrap == "-" then some (runStr r ++ tail) else none
   | ["c01.dump.state"] =>
     let rows := ";".intercalate (Generated.dispatcherMemos.map fun m =>
       m.1 ++ ":" ++ m.2.1 ++ ":" ++ ",".intercalate m.2.2.1 ++ ":" ++ toString m.2.2.2)
